@@ -60,6 +60,19 @@ type Contract struct {
 	Pos      token.Position
 	File     *ast.File
 	Params   []string // for externs/functypes without resolvable decl: optional names
+	Implements string       // func blocks: "<pkg>.<FuncType>" or "<pkg>.<Iface>.<Method>" whose contract this function must satisfy
+	Ghosts    []*GhostField // struct blocks: ghost fields
+	Immutable []string      // struct blocks: fields written only on freshly allocated objects
+}
+
+// GhostField: `ghost depth int = <expr over self>  on Before` : a specification-only
+// field whose value is recomputed whenever one of the `on` fields of the object is stored.
+type GhostField struct {
+	Name string
+	Type string
+	Text string
+	Expr SExpr
+	On   []string
 }
 
 type SpecFun struct {
@@ -79,6 +92,8 @@ type Sweep struct {
 }
 
 type ContractSet struct {
+	Defaults map[string][]string // pkgpath -> type texts whose parameters are non-nil by default
+	Frames   map[string][]string // named frame sets: name -> items
 	ByKey  map[string]*Contract // key: kind + " " + pkgpath + " " + name
 	Specs  map[string]*SpecFun  // pkgpath + "." + name, and bare name
 	Sweeps []*Sweep
@@ -104,6 +119,7 @@ func (cs *ContractSet) readFile(fset *token.FileSet, f *ast.File, pkgPath, pkgNa
 	var lastClause *Clause
 	var lastSpec *SpecFun
 	var lastSpecText *string
+	lastFrame := ""
 	errf := func(pos token.Position, format string, a ...any) {
 		cs.Errors = append(cs.Errors, fmt.Sprintf("%s: %s", pos, fmt.Sprintf(format, a...)))
 	}
@@ -137,7 +153,9 @@ func (cs *ContractSet) readFile(fset *token.FileSet, f *ast.File, pkgPath, pkgNa
 			}
 			if strings.HasPrefix(line, "|") {
 				cont := strings.TrimSpace(line[1:])
-				if lastClause != nil {
+				if lastFrame != "" && lastClause == nil && lastSpec == nil {
+					cs.Frames[lastFrame] = append(cs.Frames[lastFrame], splitTop(cont)...)
+				} else if lastClause != nil {
 					lastClause.Text += " " + cont
 				} else if lastSpec != nil {
 					*lastSpecText += " " + cont
@@ -147,6 +165,9 @@ func (cs *ContractSet) readFile(fset *token.FileSet, f *ast.File, pkgPath, pkgNa
 				continue
 			}
 			finish()
+			lastFrame2 := lastFrame
+			lastFrame = ""
+			_ = lastFrame2
 			word := line
 			rest := ""
 			if i := strings.IndexAny(line, " \t"); i >= 0 {
@@ -191,6 +212,27 @@ func (cs *ContractSet) readFile(fset *token.FileSet, f *ast.File, pkgPath, pkgNa
 				cs.Specs[pkgPath+"."+sf.Name] = sf
 				lastSpec = sf
 				lastSpecText = &sf.Text
+			case "frame":
+				if i := strings.Index(rest, "="); i > 0 {
+					if cs.Frames == nil {
+						cs.Frames = map[string][]string{}
+					}
+					name := strings.TrimSpace(rest[:i])
+					cs.Frames[name] = append(cs.Frames[name], splitTop(rest[i+1:])...)
+					lastFrame = name
+				} else {
+					errf(pos, "bad frame directive")
+				}
+			case "default":
+				f := strings.Fields(rest)
+				if len(f) == 2 && f[0] == "nonnil" {
+					if cs.Defaults == nil {
+						cs.Defaults = map[string][]string{}
+					}
+					cs.Defaults[pkgPath] = append(cs.Defaults[pkgPath], f[1])
+				} else {
+					errf(pos, "bad default directive")
+				}
 			case "sweep":
 				cs.Sweeps = append(cs.Sweeps, &Sweep{Props: props, Names: strings.Fields(rest), Pkg: pkgPath})
 			case "lemma":
@@ -213,6 +255,21 @@ func (cs *ContractSet) readFile(fset *token.FileSet, f *ast.File, pkgPath, pkgNa
 					cur.Trusted = true
 				case "params":
 					cur.Params = strings.Fields(rest)
+				case "implements":
+					cur.Implements = rest
+				case "immutable":
+					cur.Immutable = append(cur.Immutable, strings.Fields(rest)...)
+				case "ghost":
+					m := regexp.MustCompile(`^(\w+)\s+(\S+)\s*=\s*(.*?)\s+on\s+([\w ,]+)$`).FindStringSubmatch(rest)
+					if m == nil {
+						errf(pos, "bad ghost field (want: ghost name type = expr on field[,field])")
+						continue
+					}
+					ex, err := parseSpec(m[3])
+					if err != nil {
+						errf(pos, "%v", err)
+					}
+					cur.Ghosts = append(cur.Ghosts, &GhostField{Name: m[1], Type: m[2], Text: m[3], Expr: ex, On: splitProps(m[4])})
 				case "loop":
 					n := 0
 					fmt.Sscanf(rest, "%d", &n)
